@@ -103,28 +103,29 @@ type fact struct {
 }
 
 type analyzer struct {
-	l          *loader
-	fset       *token.FileSet
-	funcs      map[*types.Func]*funcInfo
-	lits       map[*ast.FuncLit]*funcInfo
-	allFuncs   []*funcInfo
-	fieldOwner map[*types.Var]*types.Named
-	named      []*types.Named
-	roots      map[*types.Named]bool
-	lockTypes  map[*types.Named]bool
-	facts      map[string]*fact
-	memo       map[string]bool
-	retMemo    map[string][]oset
-	retBusy    map[string]bool
-	staticEnvs map[*funcInfo]*env
-	entries    []string
-	entrySeen  map[*funcInfo]bool
-	entryQueue []*funcInfo
-	configMeth map[string]string // name -> reason (exceptions of kind config-method)
-	usedConfig map[string]bool
-	nFresh     int
-	notes      map[string]bool
-	curVia     string
+	l            *loader
+	fset         *token.FileSet
+	funcs        map[*types.Func]*funcInfo
+	lits         map[*ast.FuncLit]*funcInfo
+	allFuncs     []*funcInfo
+	fieldOwner   map[*types.Var]*types.Named
+	named        []*types.Named
+	roots        map[*types.Named]bool
+	lockTypes    map[*types.Named]bool
+	facts        map[string]*fact
+	memo         map[string]bool
+	retMemo      map[string][]oset
+	retBusy      map[string]bool
+	staticEnvs   map[*funcInfo]*env
+	entries      []string
+	entrySeen    map[*funcInfo]bool
+	entryQueue   []*funcInfo
+	configMeth   map[string]string // name -> reason (exceptions of kind config-method)
+	usedConfig   map[string]bool
+	readonlyMeth map[string]string // external pointer-receiver methods known not to mutate their receiver
+	nFresh       int
+	notes        map[string]bool
+	curVia       string
 }
 
 func (a *analyzer) isRepoPkg(p *types.Package) bool {
@@ -1504,7 +1505,13 @@ func (w *walker) call(c *ast.CallExpr, at lockset, newThread bool) {
 				rt := m.Type().(*types.Signature).Recv().Type()
 				_, ptrRecv := rt.(*types.Pointer)
 				if inner, ok := unparen(se.X).(*ast.SelectorExpr); ok && ptrRecv && !isIface(sel.Recv()) {
-					if _, isL := isSyncLock(rt); !isL {
+					full := m.Name()
+					if n, ok := deref(rt).(*types.Named); ok && n.Obj().Pkg() != nil {
+						full = n.Obj().Pkg().Path() + "." + n.Obj().Name() + "." + m.Name()
+					}
+					if _, ro := a.readonlyMeth[full]; ro {
+						a.usedConfig[full] = true
+					} else if _, isL := isSyncLock(rt); !isL {
 						w.emitField(inner, true)
 					}
 				}
